@@ -7,20 +7,24 @@ From Verif Require Import model.Wal.
 Import ListNotations.
 Open Scope Z_scope.
 
-(* compact byte strings: runs, literals, and stretches of a 16-bit xorshift generator
+(* compact byte strings: runs, literals, and stretches of a 16-bit LFSR generator
    (incompressible filler that is cheap to write down) *)
 Inductive chunk := CRun (b : N) (n : Z) | CLit (l : list N) | CPrng (x : N) (n : Z).
 
-Definition xs16 (x : N) : N :=
-  let x1 := N.land (N.lxor x (N.shiftl x 7)) 65535 in
-  let x2 := N.lxor x1 (N.shiftr x1 9) in
-  N.land (N.lxor x2 (N.shiftl x2 8)) 65535.
+(* 16-bit Galois LFSR (taps 0xB400), two output bytes per step *)
+Definition lfsr (x : N) : N :=
+  match x with
+  | N0 => N0
+  | Npos xH => 46080%N
+  | Npos (xO q) => Npos q
+  | Npos (xI q) => N.lxor (Npos q) 46080
+  end.
 
 Fixpoint prng (n : nat) (x : N) : list N :=
   match n with
   | O => []
   | S O => [N.shiftr x 8]
-  | S (S m) => N.shiftr x 8 :: N.land x 255 :: prng m (xs16 x)
+  | S (S m) => N.shiftr x 8 :: N.land x 255 :: prng m (lfsr x)
   end.
 
 Definition expand1 (c : chunk) : list N :=
@@ -34,19 +38,19 @@ Definition expand (cs : list chunk) : list N := flat_map expand1 cs.
 Fixpoint beq (a b : list N) : bool :=
   match a, b with
   | [], [] => true
-  | x :: a', y :: b' => N.eqb x y && beq a' b'
+  | x :: a', y :: b' => if N.eqb x y then beq a' b' else false
   | _, _ => false
   end.
 Fixpoint lbeq (a b : list (list N)) : bool :=
   match a, b with
   | [], [] => true
-  | x :: a', y :: b' => beq x y && lbeq a' b'
+  | x :: a', y :: b' => if beq x y then lbeq a' b' else false
   | _, _ => false
   end.
 Fixpoint llbeq (a b : list (list (list N))) : bool :=
   match a, b with
   | [], [] => true
-  | x :: a', y :: b' => lbeq x y && llbeq a' b'
+  | x :: a', y :: b' => if lbeq x y then llbeq a' b' else false
   | _, _ => false
   end.
 
@@ -55,7 +59,7 @@ Definition crc_tab := list (Z * list N * N).
 Fixpoint crc_lookup (t : crc_tab) (n : Z) (l : list N) : N :=
   match t with
   | [] => 4294967296%N           (* miss: not a 32-bit value, cannot match any real header *)
-  | (m, k, v) :: t' => if (m =? n) && beq k l then v else crc_lookup t' n l
+  | (m, k, v) :: t' => if (if m =? n then beq k l else false) then v else crc_lookup t' n l
   end.
 Definition crc_of (t : crc_tab) (l : list N) : N := crc_lookup t (zlen l) l.
 
@@ -63,12 +67,20 @@ Definition enc_tab := list (Z * list N * (Z * list N)).   (* (len rec, rec, (len
 Fixpoint enc_lookup (t : enc_tab) (n : Z) (l : list N) : list N :=
   match t with
   | [] => [999%N]                (* miss: not a byte string *)
-  | (m, k, (_, v)) :: t' => if (m =? n) && beq k l then v else enc_lookup t' n l
+  | (m, k, (_, v)) :: t' => if (if m =? n then beq k l else false) then v else enc_lookup t' n l
   end.
 Fixpoint dec_lookup (t : enc_tab) (n : Z) (l : list N) : option (list N) :=
   match t with
   | [] => None
-  | (_, k, (m, v)) :: t' => if (m =? n) && beq v l then Some k else dec_lookup t' n l
+  | (_, k, (m, v)) :: t' => if (if m =? n then beq v l else false) then Some k else dec_lookup t' n l
+  end.
+
+(* key of a CRC table entry: a slice of one of the real files, or literal bytes *)
+Inductive ckey := KFile (seg off len : Z) | KLit (b : list chunk).
+Definition key_bytes (files : list (list N)) (k : ckey) : list N :=
+  match k with
+  | KFile seg off len => ztake len (zdrop off (nth (Z.to_nat seg) files []))
+  | KLit b => expand b
   end.
 
 Inductive rref := Idx (j : Z) | Raw (b : list chunk).
@@ -79,8 +91,8 @@ Record case := mkCase {
   c_pps : Z;                                 (* segmentSize / pageSize *)
   c_close : bool;                            (* WL.Close() called before reading *)
   c_batches : list (list (list chunk));      (* arguments of the successive WL.Log calls *)
-  c_crc : list (Z * list chunk * N);         (* CRC-32C oracle, tabulated on every fragment *)
-  c_enc : list (Z * list chunk * (Z * list chunk));  (* compression oracle *)
+  c_crc : list (ckey * N);                   (* CRC-32C oracle, tabulated on every fragment *)
+  c_enc : list (Z * (Z * list chunk));       (* compression oracle: (index of record, (len, encoded)) *)
   c_sizes : list (Z * Z);                    (* after each Log call: (index, size) of the last segment file *)
   c_files : list (list chunk);               (* the segment files at the end *)
   c_read : list rref * Z;                    (* wlog.Reader over the directory: records, status *)
@@ -129,7 +141,7 @@ Definition zz_eqb (a b : Z * Z) : bool := (fst a =? fst b) && (snd a =? snd b).
 Fixpoint list_eqb {A B} (f : A -> B -> bool) (a : list A) (b : list B) : bool :=
   match a, b with
   | [], [] => true
-  | x :: a', y :: b' => f x y && list_eqb f a' b'
+  | x :: a', y :: b' => if f x y then list_eqb f a' b' else false
   | _, _ => false
   end.
 
@@ -142,12 +154,12 @@ Definition is_idx (r : rref) (j : Z) : bool := match r with Idx k => k =? j | Ra
 Definition agree (c : case) : bool :=
   let batches := map (map expand) (c_batches c) in
   let recs := concat batches in
-  let ctab : crc_tab := map (fun '(n, k, v) => (n, expand k, v)) (c_crc c) in
-  let etab : enc_tab := map (fun '(n, k, (m, v)) => (n, expand k, (m, expand v))) (c_enc c) in
+  let files := map expand (c_files c) in
+  let ctab : crc_tab := map (fun '(k, v) => let b := key_bytes files k in (zlen b, b, v)) (c_crc c) in
+  let etab : enc_tab := map (fun '(j, (m, v)) => let r := nth (Z.to_nat j) recs [1000%N] in (zlen r, r, (m, expand v))) (c_enc c) in
   let crcf := crc_of ctab in
   let encf := fun (_ : N) l => enc_lookup etab (zlen l) l in
   let decf := fun (_ : N) l => dec_lookup etab (zlen l) l in
-  let files := map expand (c_files c) in
   (* writer: file sizes after each Log call, final file contents *)
   let wok :=
     match run_batches crcf encf (c_compr c) (c_pps c) batches (w_init) [] with
